@@ -14,7 +14,7 @@ import attrs
 import click
 
 from .exceptions import GWFError
-from .utils import is_valid_name, timer
+from .utils import atomic_write, is_valid_name, timer
 
 logger = logging.getLogger(__name__)
 
@@ -133,7 +133,7 @@ class FileSpecHashes:
             pass
 
     def close(self):
-        with open(self.path, "w") as hashes_file:
+        with atomic_write(self.path) as hashes_file:
             json.dump(self.hashes, hashes_file)
 
     def __enter__(self):
